@@ -31,7 +31,7 @@ RESULTS=""
 cd /verif
 git -C /repo apply $OUT/patch.diff || { echo "patch does not apply to /repo"; exit 3; }
 for c in $CHECKS; do
-  ./check $c > $OUT/check_$c.log 2>&1; rc=$?
+  VERIF_EVIDENCE_DIR=/var/tmp/confirm_ev ./check $c > $OUT/check_$c.log 2>&1; rc=$?
   RESULTS="$RESULTS $c:$rc"
 done
 git -C /repo checkout -- .
